@@ -125,6 +125,42 @@ CLAIMS = {
              "update is complete). Liveness ('a full pass of the data always ends in Done') is checked by the harness, "
              "not proved.",
         design_ref="DESIGN.md section 6 (C06)"),
+    "C14": dict(
+        text="Proved in Lean (model Fuota.Firmware / Fuota.Crc, a byte-accurate transcription of crc_valid incl. its read "
+             "sequence): segLoop_spec / crc_loop_spec (for every size and count the segment loop digests exactly the "
+             "data-region bytes 68 .. n*size, nothing when n*size <= 68), valid_iff (validation = header parses, kind "
+             "firmware, ext complete, reads in range, LE32 of the first word = CRC-32/CKSUM of the covered bytes) with "
+             "one lemma per failing conjunct giving the exact error, check_gate / check_fail_unmodified / "
+             "check_gate_same_test (check_and_mark_done programs nothing unless the same test passed, and then exactly "
+             "the two Complete words), crc_single_bit / check_single_bit (any single flipped bit of the covered bytes or "
+             "of the stored CRC word makes validation fail: xor-linearity of the register and shift1_ne_zero), "
+             "check_value (0x765E7680), orig_valid_iff for the deprecated crate. Compared with both crates on crafted "
+             "slots for every fragment size 1..=256, exhaustive single-bit sweeps and real sessions with one-bit "
+             "corruption; verdict, exact read log and mutating-op log are compared.",
+        note="Trusted: crate crc as compiled (compared with the model and two independent implementations). Assumption of "
+             "check_fail_unmodified: the parity slot's status word lies inside the device. Observations outside the "
+             "property: images of at most 68 bytes validate vacuously against erased flash; crc_valid does not compare "
+             "n*size with the slot capacity.",
+        design_ref="DESIGN.md section 6 (C14)"),
+    "C08": dict(
+        text="Proved in Lean over the L2 model for every device state (any flash contents, any crash point incl. torn "
+             "programs, any fault): an operation-footprint calculus (EmitsR/EmitsU/Replay) and with it slot_ops_in_slot "
+             "(every slot accessor stays inside its slot; write_segment needs exactly the bound the accepted geometry "
+             "provides), start_ops_in_pair (start_update touches only the two slots chosen by alloc, both < nslots, "
+             "incl. wrap-around at the last slot), segment_ops_in_pair / check_ops_in_pair (fragments and the final check "
+             "touch only the session's firmware and parity slot; session geometry is preserved), "
+             "recover_cancel_mark_ops_in_one_slot, header_area_clean (programs below 0x400 are the seven 4-byte fields, "
+             "torn or not), regions_disjoint (segments, status bytes, header words, parity blocks, matrix rows), "
+             "no_zero_to_one at flash level and start_crash_free (start_update on a healthy device emits exactly the "
+             "expected erases and eight header words and needs no 0->1). The complete op log of every API call is "
+             "compared between model and implementation over sessions, malformed inputs, arbitrary flash and ring "
+             "histories; the oracle checks the same statements on the implementation.",
+        note="segment_no_zero_to_one_partial: for handle_segment the 'no 0->1 in crash-free runs' part is reduced to an "
+             "explicit write discipline hypothesis (needs C09's write-once contracts transported to the flash stores and "
+             "a frame invariant that unwritten regions stay erased); the NOR simulator counts 0->1 needs on every run. "
+             "Model-level observations: write_segment's own bound check omits the buffer length and "
+             "mark_segment_written compares with > instead of >= (both unreachable under the accepted geometry).",
+        design_ref="DESIGN.md section 6 (C08)"),
 }
 
 _TODO = "check not built yet in this session (planned in DESIGN.md section 6); not believed to be outside the technique"
